@@ -1530,3 +1530,4 @@ def run(rep):
     c01_informed.r01q(rep, F)
     c01_informed.r01t(rep, F)
     c01_informed.r01u(rep, F)
+    c01_informed.r01y(rep, F)
